@@ -6,7 +6,7 @@ from vlib import conclude
 import drvlib as D
 
 OBLIGATIONS = ['Cvise.C20.judge_once', 'Cvise.C20.round_failed_le', 'Cvise.C20.failed_le_executed', 'Cvise.C20.worked_eq_accepted', 'Cvise.C20.executed_eq_started',
-               'Cvise.C20.pass_time_bounds', 'Cvise.C20.shipped_clock',
+               'Cvise.C20.pass_time_bounds', 'Cvise.C20.shipped_clock', 'Cvise.C20.gated_statistics',
                'Cvise.D.processDone_ok', 'Cvise.D.wfs_ok', 'Cvise.D.roundLoop_ok', 'Cvise.D.fileLoop_stat']
 
 
